@@ -4,5 +4,6 @@ CONSTANTS
   MaxFail = 2
   Discipline = "ReserveFirst"
   RollBack = TRUE
-INVARIANTS NoCorruption Consistent NoLeak NoLeakAtEnd RetryEqualsClean
+  InPlace = FALSE
+INVARIANTS NoCorruption Consistent NoLeak NoLeakAtEnd RetryEqualsClean InPlaceCompletes
 PROPERTY Atomic
